@@ -156,6 +156,10 @@ class EncoderImpl:
         for v in x.reshape(-1).tolist():
             if v == 0.0:
                 out.append("zero")
+            elif self.kind == "pint":
+                # expected interval in steps 1000 / (f x dt); beyond 1e9 steps a Poisson variate with
+                # that mean exceeds every horizon (probability of the contrary < exp(-1e8))
+                out.append("tiny" if f * float(v) * dt < 1e-6 else "pos")
             elif self.kind != "bern":
                 out.append("pos")
             else:
